@@ -13,7 +13,10 @@ import (
 func init() {
 	register(&core.Rule{ID: "HASHMAP-EQ", Props: []string{"C05"}, Floor: 2,
 		Doc: "hashmap.HashMap: a bucket hit is confirmed with Key.Equal before a value is returned as found or overwritten; a 32-bit hash match alone never identifies a key",
-		Run: runHashmapEq})
+		Run: func(c *core.Ctx) { runHashmapEq(c, true) }})
+	register(&core.Rule{ID: "HASHMAP-KEYS", Props: []string{"C17", "C01"}, Floor: 3,
+		Doc: "hashmap.HashMap keeps its key list in step with its buckets: every Set stores the pair and records a new key, Clear empties both - map resources (IncMap, resources.HashMap) enumerate their elements for Commit/Abort/Close through Keys(), so an element missing from the list is never committed, aborted or closed",
+		Run: func(c *core.Ctx) { runHashmapEq(c, false) }})
 	register(&core.Rule{ID: "DATA-ENCAPSULATED", Props: []string{"C05"}, Floor: 6,
 		Doc: "the value kinds (implementations of tla.impl) inspect another Value only through the Value API, never through its unexported data field: the API forwards through the causal (vector-clock) wrapper, a type assertion on data does not",
 		Run: runDataEncapsulated})
@@ -22,7 +25,7 @@ func init() {
 		Run: runTPCAcceptor})
 }
 
-func runHashmapEq(c *core.Ctx) {
+func runHashmapEq(c *core.Ctx, eqPart bool) {
 	e := EnvOf(c.Prog)
 	t := mustType(c, e, an.PkgHashmap, "HashMap")
 	if t == nil {
@@ -34,7 +37,7 @@ func runHashmapEq(c *core.Ctx) {
 			return ok && an.IsMethodNamed(an.CalleeFunc(info, call), an.PkgTLA, "Value", "Equal")
 		}
 	}
-	if fn := mustMethod(c, e, an.PkgHashmap, "HashMap", "Get"); fn != nil {
+	if fn := mustMethod(c, e, an.PkgHashmap, "HashMap", "Get"); fn != nil && eqPart {
 		g := e.Graph(fn)
 		info := fn.Pkg.Info
 		n := 0
@@ -60,6 +63,9 @@ func runHashmapEq(c *core.Ctx) {
 		g := e.Graph(fn)
 		info := fn.Pkg.Info
 		n := 0
+		if !eqPart {
+			n = -1
+		}
 		// overwrites: assignment to an element's Value field
 		for _, a := range g.FindAtoms(func(a ast.Node) bool {
 			as, ok := a.(*ast.AssignStmt)
@@ -67,7 +73,7 @@ func runHashmapEq(c *core.Ctx) {
 				return false
 			}
 			sel, ok := an.Unparen(as.Lhs[0]).(*ast.SelectorExpr)
-			return ok && sel.Sel.Name == "Value"
+			return eqPart && ok && sel.Sel.Name == "Value"
 		}) {
 			n++
 			ok := false
